@@ -105,6 +105,8 @@ type simLlama struct {
 
 	// completion script (H-api)
 	script func(ctx context.Context, req llm.CompletionRequest, fn func(llm.CompletionResponse)) error
+
+	inFlight []context.Context // Completion calls in progress
 }
 
 // simLlamaWorld is the part of a harness world the runner stub talks to.
@@ -115,7 +117,10 @@ type simLlamaWorld struct {
 	slowClose bool
 	onClose   func(s *simLlama)
 	onClosed  func(s *simLlama) // called when Close is about to return (teardown complete)
-	now       func() time.Duration
+	// onCloseInUse is called when Close starts while a Completion whose request context is
+	// still live is in progress on the runner (C01 seen from the HTTP layer)
+	onCloseInUse func(s *simLlama, n int)
+	now          func() time.Duration
 }
 
 //go:norace
@@ -168,10 +173,37 @@ func (s *simLlama) WaitUntilRunning(ctx context.Context) error {
 
 //go:norace
 func (s *simLlama) Completion(ctx context.Context, req llm.CompletionRequest, fn func(llm.CompletionResponse)) error {
+	// C01 at the HTTP level: a completion whose request context is still live is a request
+	// in progress on this runner (see Close)
+	s.inFlight = append(s.inFlight, ctx)
+	defer s.callDone(ctx)
 	if s.script != nil {
 		return s.script(ctx, req, fn)
 	}
 	return nil
+}
+
+//go:norace
+func (s *simLlama) callDone(ctx context.Context) {
+	for i, c := range s.inFlight {
+		if c == ctx {
+			s.inFlight = append(s.inFlight[:i], s.inFlight[i+1:]...)
+			return
+		}
+	}
+}
+
+// liveCalls is the number of calls in progress on this runner whose request has not ended.
+//
+//go:norace
+func (s *simLlama) liveCalls() int {
+	n := 0
+	for _, c := range s.inFlight {
+		if c.Err() == nil {
+			n++
+		}
+	}
+	return n
 }
 
 //go:norace
@@ -207,6 +239,9 @@ func (s *simLlama) Detokenize(ctx context.Context, tokens []int) (string, error)
 //go:norace
 func (s *simLlama) Close() error {
 	verifsim.Yield("sim:close")
+	if n := s.liveCalls(); n > 0 && s.w.onCloseInUse != nil {
+		s.w.onCloseInUse(s, n)
+	}
 	s.closed++
 	s.running = false
 	if s.w.now != nil {
